@@ -188,187 +188,6 @@ def validate(wd, raw_files, tag="nodetrace", timeout=1800):
         while start > 0 and lines[start]["ev"] != "reset":
             start -= 1
         diffs.append({"line": ln, "event": name, "what": fields, "instance": lines[start], "context": lines[max(start, ln - 12):ln]})
-    return {k: _num(v, scale) for k, v in (m or {}).items()}
-
-
-def _known(m, scale):
-    return {k: _costs(v, scale) for k, v in (m or {}).items()}
-
-
-def _update_from_body(b, rank, scale):
-    """routing update body (decoded JSON of the wire message) -> spec record, or None if ill-formed"""
-    try:
-        if not isinstance(b, dict):
-            return None
-        conns = b.get("Connections")
-        if conns is None:
-            conns = {}
-        if not isinstance(conns, dict):
-            return None
-        for f in ("NodeID", "UpdateID", "ForwardingNode"):
-            if not isinstance(b.get(f, ""), str):
-                return None
-        return {"node": b.get("NodeID", ""), "id": b.get("UpdateID", ""), "epoch": rank(b.get("UpdateEpoch", 0)),
-                "seq": int(b.get("UpdateSequence", 0)), "conns": _costs(conns, scale), "fwd": b.get("ForwardingNode", ""),
-                "susp": rank(b.get("SuspectedDuplicate", 0))}
-    except (ValueError, TypeError):
-        return None
-
-
-def normalise(raw_events):
-    """raw hook events (dicts) -> list of NodeTrace lines; node instances in order of first appearance"""
-    by_node, order = {}, []
-    for e in raw_events:
-        n = e.get("n")
-        if n is None or "@" not in str(n):
-            continue
-        if n not in by_node:
-            by_node[n] = []
-            order.append(n)
-        by_node[n].append(e)
-    out = []
-    for n in order:
-        evs = by_node[n]
-        evs.sort(key=lambda e: e.get("i", 0))
-        self_id, own_epoch = n.rsplit("@", 1)
-        own_epoch = int(own_epoch)
-        # all epochs that appear in this instance's trace, ranked together (0 = "none")
-        eps = {own_epoch}
-        scale = 1
-        def walk_costs(m):
-            nonlocal scale
-            for v in (m or {}).values():
-                if isinstance(v, dict):
-                    walk_costs(v)
-                elif isinstance(v, (int, float)) and abs(v - round(v)) > 1e-9:
-                    scale = 1000
-        for e in evs:
-            for k in ("epoch", "susp"):
-                if isinstance(e.get(k), (int, float)):
-                    eps.add(int(e[k]))
-            info = e.get("info")
-            if isinstance(info, dict) and "epoch" in info:
-                eps.add(int(info["epoch"]))
-            b = ((e.get("msg") or {}).get("body")) if isinstance(e.get("msg"), dict) else None
-            if isinstance(b, dict):
-                for k in ("UpdateEpoch", "SuspectedDuplicate"):
-                    if isinstance(b.get(k), (int, float)):
-                        eps.add(int(b[k]))
-                walk_costs(b.get("Connections") if isinstance(b.get("Connections"), dict) else None)
-            for k in ("known", "conns", "costs", "nodecost"):
-                if isinstance(e.get(k), dict):
-                    walk_costs(e[k])
-            if isinstance(e.get("cost"), float) and abs(e["cost"] - round(e["cost"])) > 1e-9:
-                scale = 1000
-        times = sorted({int(e["time"]) for e in evs if e.get("ev") in ("ad_local", "ad_withdraw", "ad_recv") and isinstance(e.get("time"), (int, float))})
-        trank = {v: i + 1 for i, v in enumerate(times)}
-        eps.discard(0)
-        ranks = {v: i + 1 for i, v in enumerate(sorted(eps))}
-        rank = lambda v: 0 if not v else ranks[int(v)]
-        out.append({"ev": "reset", "self": self_id, "epoch": rank(own_epoch)})
-        for e in evs:
-            ev = e.get("ev")
-            if ev not in KEEP:
-                continue
-            try:
-                if ev == "sess_start":
-                    allow = e.get("allow")
-                    out.append({"ev": ev, "sess": e["sess"], "cost": _num(e.get("cost", 1), scale), "allowany": allow is None,
-                                "allow": list(allow or []), "nodecost": _costs(e.get("nodecost"), scale)})
-                elif ev == "recv":
-                    msg = e.get("msg") or {}
-                    u = _update_from_body(msg.get("body"), rank, scale) if msg.get("type") == 1 else None
-                    out.append({"ev": ev, "sess": e["sess"], "est": bool(e.get("est")), "hasu": u is not None,
-                                "u": u or {"node": "", "id": "", "epoch": 0, "seq": 0, "conns": {}, "fwd": "", "susp": 0}})
-                elif ev == "reject":
-                    out.append({"ev": ev, "sess": e["sess"], "peer": e.get("peer", ""), "why": e["why"]})
-                elif ev == "conn_add":
-                    out.append({"ev": ev, "sess": e["sess"], "peer": e["peer"], "cost": _num(e["cost"], scale)})
-                elif ev == "known_add":
-                    out.append({"ev": ev, "peer": e["peer"], "cost": _num(e["cost"], scale), "known": _known(e.get("known"), scale)})
-                elif ev == "established":
-                    out.append({"ev": ev, "sess": e["sess"], "peer": e.get("peer", "")})
-                elif ev == "conn_del":
-                    out.append({"ev": ev, "peer": e["peer"]})
-                elif ev == "known_del":
-                    out.append({"ev": ev, "peer": e["peer"], "known": _known(e.get("known"), scale)})
-                elif ev == "sess_end":
-                    out.append({"ev": ev, "sess": e["sess"]})
-                elif ev == "ru_self":
-                    out.append({"ev": ev, "epoch": rank(e.get("epoch", 0)), "susp": rank(e.get("susp", 0))})
-                elif ev == "ru_seen":
-                    out.append({"ev": ev, "id": e["id"], "hit": bool(e["hit"])})
-                elif ev == "ru_dupnotice":
-                    info = e.get("info")
-                    out.append({"ev": ev, "origin": e["origin"], "id": e["id"], "epoch": rank(e["epoch"]), "seq": int(e["seq"]),
-                                "susp": rank(e["susp"]), "hasinfo": isinstance(info, dict),
-                                "info": [rank(info["epoch"]), int(info["seq"])] if isinstance(info, dict) else [0, 0]})
-                elif ev == "ru_apply":
-                    out.append({"ev": ev, "origin": e["origin"], "id": e["id"], "epoch": rank(e["epoch"]), "seq": int(e["seq"]),
-                                "result": e["result"], "changed": bool(e.get("changed", False)),
-                                "conns": _costs(e.get("conns"), scale), "known": _known(e.get("known"), scale)})
-                elif ev == "flood":
-                    msg = e.get("msg") or {}
-                    u = _update_from_body(msg.get("body"), rank, scale) if e.get("mtype") == 1 else None
-                    out.append({"ev": ev, "mtype": int(e.get("mtype", -1)), "exclude": e.get("exclude", ""), "targets": list(e.get("targets") or []),
-                                "hasu": u is not None,
-                                "u": u or {"node": "", "id": "", "epoch": 0, "seq": 0, "conns": {}, "fwd": "", "susp": 0}})
-                elif ev == "mk_update":
-                    out.append({"ev": ev, "seq": int(e["seq"]), "id": e["id"], "conns": _costs(e.get("conns"), scale), "susp": rank(e.get("susp", 0))})
-                elif ev == "rebuild":
-                    out.append({"ev": ev, "table": dict(e.get("table") or {}), "costs": _costs(e.get("costs"), scale),
-                                "known": _known(e.get("known"), scale)})
-                elif ev == "shutdown":
-                    out.append({"ev": ev})
-                elif ev == "seen_expire":
-                    out.append({"ev": ev, "id": e["id"]})
-                elif ev == "ad_local":
-                    out.append({"ev": ev, "svc": e["svc"], "time": trank[int(e["time"])], "ctype": int(e.get("ctype", 0))})
-                elif ev == "ad_withdraw":
-                    out.append({"ev": ev, "svc": e["svc"], "time": trank[int(e["time"])]})
-                elif ev == "ad_recv":
-                    out.append({"ev": ev, "owner": e["owner"], "svc": e["svc"], "time": trank[int(e["time"])], "cancel": bool(e["cancel"]),
-                                "result": e["result"], "ctype": int(e.get("ctype", 0))})
-                elif ev == "h_status":
-                    out.append({"ev": ev, "conns": _costs(e.get("conns"), scale), "table": dict(e.get("table") or {}),
-                                "costs": _costs(e.get("costs"), scale), "known": _known(e.get("known"), scale)})
-            except (KeyError, ValueError, TypeError):
-                out.append({"ev": "other"})
-    return out
-
-
-def validate(wd, raw_files, tag="nodetrace", timeout=1800):
-    """Returns dict(lines, diffs, classes, instances). Raises Inconclusive when TLC cannot consume the trace."""
-    raw = []
-    for f in raw_files:
-        raw += vlib.read_ndjson(f)
-    lines = normalise(raw)
-    if not lines:
-        raise vlib.Inconclusive("no node events recorded")
-    path = os.path.join(wd, tag + ".ndjson")
-    vlib.write_ndjson(path, lines)
-    tmp = os.path.join(wd, "trace.ndjson")
-    shutil.copyfile(path, tmp)
-    r = vlib.tlc("NodeTrace", "NodeTrace.cfg", wd, workers=1, timeout=timeout, files=[tmp])
-    if not r.ok:
-        raise vlib.Inconclusive("NodeTrace validation did not complete (exit %s, violated=%s)\n%s" % (r.exit, r.violated, r.output[-2500:]))
-    done = re.search(r'<<"DONE", (\d+)>>', r.output)
-    if not done or int(done.group(1)) != len(lines):
-        raise vlib.Inconclusive("node trace not consumed completely: %s of %d lines" % (done.group(1) if done else "?", len(lines)))
-    classes = {}
-    for m in re.finditer(r'<<"CLASS", "([a-z_]+)">>', r.output):
-        classes[m.group(1)] = classes.get(m.group(1), 0) + 1
-    diffs, seen = [], set()
-    for m in re.finditer(r'<<"DIFF", (\d+), "([a-z_]+)", \{([^}]*)\}>>', r.output):
-        ln = int(m.group(1))
-        if ln in seen:
-            continue
-        seen.add(ln)
-        fields = sorted(x.strip().strip('"') for x in m.group(3).split(",") if x.strip())
-        start = ln - 1
-        while start > 0 and lines[start]["ev"] != "reset":
-            start -= 1
-        diffs.append({"line": ln, "event": m.group(2), "what": fields, "instance": lines[start], "context": lines[max(start, ln - 12):ln]})
     return {"lines": len(lines), "diffs": diffs, "classes": classes, "tlc": r,
             "instances": sum(1 for x in lines if x["ev"] == "reset")}
 
